@@ -106,6 +106,38 @@ func (vc *VC) Generate() (err error) {
 		o.Cover = true
 		o.Reach = "true"
 	}
+	// operations that must not occur at all
+	if vc.fc != nil {
+		for _, ns := range vc.fc.NoSites {
+			for _, b := range fn.Blocks {
+				for _, x := range b.Instrs {
+					ci, ok := x.(ssa.CallInstruction)
+					if !ok {
+						continue
+					}
+					name := ""
+					if bi, isB := ci.Common().Value.(*ssa.Builtin); isB {
+						name = bi.Name()
+					} else {
+						name, _ = vc.calleeName(ci.Common())
+					}
+					if name == ns.Site || matchCallee(name, ns.Site) {
+						vc.cur = b
+						o := vc.oblige("nosite", ns.Site, "false", mergeTags(ns.Tags, vc.tagsOfFunc()), x.Pos(), ns)
+						o.Reach = vc.reach[b]
+						if o.Reach == "" {
+							o.Reach = "true"
+						}
+					}
+				}
+			}
+		}
+		if len(vc.fc.NoSites) > 0 {
+			vc.cur = nil
+			o := vc.oblige("nosite", "scan", "true", vc.tagsOfFunc(), fn.Pos(), vc.fc.NoSites[0])
+			o.Reach = "true"
+		}
+	}
 	// contract binding: every loop / site clause must have bound to something
 	if vc.fc != nil {
 		for _, c := range vc.fc.Invs {
